@@ -67,6 +67,9 @@ pub fn text(c: &Case) -> String {
         }
         "component" => module("M", "AUTOMATIC", false, &format!("S ::= SEQUENCE {{ {n} BOOLEAN }}")),
         "alternative" => module("M", "AUTOMATIC", false, &format!("C ::= CHOICE {{ {n} BOOLEAN }}")),
+        // the name becomes part of the name of a type: a component / alternative with an anonymous constructed type
+        "component-anon" => module("M", "AUTOMATIC", false, &format!("S ::= SEQUENCE {{ {n} SEQUENCE {{ a BOOLEAN }} }}")),
+        "alternative-anon" => module("M", "AUTOMATIC", false, &format!("C ::= CHOICE {{ {n} SEQUENCE {{ a BOOLEAN }} }}")),
         "enumeral" => module("M", "AUTOMATIC", false, &format!("E ::= ENUMERATED {{ {n} }}")),
         "value" => module("M", "AUTOMATIC", false, &format!("{n} INTEGER ::= 5\nuser INTEGER ::= {n}")),
         "namednumber" => module("M", "AUTOMATIC", false, &format!("I ::= INTEGER {{ {n}(1) }}\nS ::= SEQUENCE {{ f I DEFAULT {n} }}")),
@@ -137,7 +140,7 @@ impl Prop for C16 {
         "C16"
     }
     fn rule(&self) -> String {
-        "(a) every legal ASN.1 name of length <= L (quick 4, thorough 6) over the class alphabet {a,z,A,Z,0,9,-} in each role {module, type (+ use as component/element type), component, alternative, enumeral, value (+ use in another value), named number}; (b) every Rust strict/reserved/weak keyword in its ASN.1-legal spelling per role (capitalised for types/modules) plus hyphenated near-keywords; (c) type/identifier pairs differing only by case or hyphen used in different roles of one module; TypeScript backend for (a) at L<=3. Oracle: output parses (syn); identifier legal and not a Rust 2021 keyword; letter/digit sequence (minus r_/R_ escape) equals the ASN.1 name's; case class per role; Rust spelling != ASN.1 spelling ⇒ identifier annotation equal to the ASN.1 name; references use the same Rust spelling as the definition. Non-trivial: compiled cleanly and the identifier was located.".into()
+        "(a) every legal ASN.1 name of length <= L (quick 4, thorough 6) over the class alphabet {a,z,A,Z,0,9,-} in each role {module, type (+ use as component/element type), component, alternative, component / alternative with an anonymous constructed type (the name becomes part of a type name), enumeral, value (+ use in another value), named number}; (b) every Rust strict/reserved/weak keyword in its ASN.1-legal spelling per role (capitalised for types/modules) plus hyphenated near-keywords; (c) type/identifier pairs differing only by case or hyphen used in different roles of one module; TypeScript backend for (a) at L<=3. Oracle: output parses (syn); identifier legal and not a Rust 2021 keyword; letter/digit sequence (minus r_/R_ escape) equals the ASN.1 name's; case class per role; Rust spelling != ASN.1 spelling ⇒ identifier annotation equal to the ASN.1 name; references use the same Rust spelling as the definition. Non-trivial: compiled cleanly and the identifier was located.".into()
     }
     fn enumerate(&self, tier: Tier, _seed: u64) -> Vec<Case> {
         let alpha = ['a', 'z', 'A', 'Z', '0', '9', '-'];
@@ -164,7 +167,7 @@ impl Prop for C16 {
         }
         let mut out = vec![];
         let upper_roles = ["module", "type"];
-        let lower_roles = ["component", "alternative", "enumeral", "value", "namednumber"];
+        let lower_roles = ["component", "alternative", "enumeral", "value", "namednumber", "component-anon", "alternative-anon"];
         for n in &all {
             if ASN_RESERVED.contains(&n.as_str()) {
                 continue;
@@ -381,6 +384,32 @@ impl Prop for C16 {
                     discs.push(Disc::new(format!("name|role=component|pattern={class}|kind=missing-item"), ctx.clone()))
                 }
             },
+            "component-anon" | "alternative-anon" => {
+                let (item, role) = if c.role == "component-anon" { ("S", "component") } else { ("C", "alternative") };
+                let kw = is_keyword(&c.name) || is_keyword(&c.name.to_lowercase());
+                let pat = if kw { format!("kw:{}", c.name.to_lowercase()) } else { class.clone() };
+                let (f, ty) = match m.find(item) {
+                    Some(Item::Struct { fields, .. }) if fields.len() == 1 => (Some(attrs_found(&fields[0].name, &fields[0].attrs)), Some(fields[0].ty.clone())),
+                    Some(Item::Enum { variants, .. }) if variants.len() == 1 => (Some(attrs_found(&variants[0].name, &variants[0].attrs)), variants[0].payload.clone()),
+                    _ => (None, None),
+                };
+                match (f, ty) {
+                    (Some(f), Some(ty)) => {
+                        check_name(role, &c.name, &f, &mut discs, &ctx);
+                        // the anonymous type is declared under exactly the name it is referred to by, and that name is legal
+                        let legal = ty.chars().next().map_or(false, |ch| ch.is_ascii_alphabetic()) && ty.chars().all(|ch| ch.is_ascii_alphanumeric() || ch == '_') && !is_keyword(&ty);
+                        if !legal {
+                            discs.push(Disc::new(format!("name|role={}|pattern={pat}|kind=illegal", c.role), format!("type `{ty}` of `{}`\n{ctx}", c.name)));
+                        } else if m.find(&ty).is_none() {
+                            discs.push(Disc::new(format!("name|role={}|pattern={pat}|kind=reference-spelling", c.role), format!("`{}` has the type `{ty}`, which is declared nowhere (declared: {:?})\n{ctx}", c.name, m.types().iter().map(|i| i.name()).collect::<Vec<_>>())));
+                        }
+                    }
+                    _ => {
+                        located = false;
+                        discs.push(Disc::new(format!("name|role={}|pattern={class}|kind=missing-item", c.role), ctx.clone()))
+                    }
+                }
+            }
             "alternative" => match field_of("C") {
                 Some(f) => check_name("alternative", &c.name, &f, &mut discs, &ctx),
                 None => {
